@@ -81,7 +81,7 @@ def check_case(case):
     elif fam == "tree":
         spec = decorate(spec_from_forest(case["f"], case["pal"], case.get("pol", 1), 0.37), case["variant"])
     elif fam == "mux":
-        spec = mux_spec([tuple(x) for x in case["inputs"]], case["pal"], case["rs_list"], rails=case["rails"], by_rail=case["rails"], order=case["order"])
+        spec = mux_spec([tuple(x) for x in case["inputs"]], case["pal"], case["rs_list"], rails=case["rails"], by_rail=case["rails"], order=case["order"], below=case.get("below", "std"))
     elif fam == "version":
         spec = kind_spec("Converter", dict(vo=3.3, eff=0.9), True)
     s = build_holes(spec) if case.get("holes") else build(spec)
@@ -120,10 +120,14 @@ def check_case(case):
             res.classes.add("version:%s:%s" % (label, out))
         res.nontrivial = 1
         return res
-    a = all_reports(s, REPORTS)
+    if case.get("remux"):   # save FIRST (nothing may refresh the object's caches between the edit and save()), analyse afterwards
+        s2, doc, path = roundtrip(res, s, "r")
+        a = all_reports(s, REPORTS)
+    else:
+        a = all_reports(s, REPORTS)
+        s2, doc, path = roundtrip(res, s, "r")
     if isinstance(a["solve_energy"], tuple):
         res.classes.add("original-unsolvable")
-    s2, doc, path = roundtrip(res, s, "r")
     if s2 is None:
         return res
     b = all_reports(s2, REPORTS)
@@ -204,6 +208,7 @@ def gen_cases(tier):
                 yield dict(fam="mux", inputs=[list(x) for x in inputs], pal=pal, rs_list=True, rails=(sum(order) + k) % 2 == 0, order=list(order))
             if k == 2:
                 yield dict(fam="mux", inputs=[list(x) for x in inputs], pal=pal, rs_list=False, rails=False, order=None, remux=True)
+                yield dict(fam="mux", inputs=[list(x) for x in inputs], pal=pal, rs_list=False, rails=False, order=None, remux=True, below="none")
     yield dict(fam="version")
 
 
